@@ -133,6 +133,14 @@ func transforms(s *scn.Scenario) []*scn.Scenario {
 		})
 		add(func(t *scn.Scenario) bool {
 			u := &t.UEs[i]
+			if u.SessAMBR == "" {
+				return false
+			}
+			u.SessAMBR = ""
+			return true
+		})
+		add(func(t *scn.Scenario) bool {
+			u := &t.UEs[i]
 			if u.AMBRDL == 1000 && u.AMBRUL == 1000 {
 				return false
 			}
